@@ -447,6 +447,162 @@ theorem closest_num_returns_requested_partial (ps : List Peer) (n : Nat) (hyp : 
   unfold ClosestNumReturnsRequested
   rw [(closest_num_sorted_prefix ps n).2.1]; omega
 
+/-! ## The producer of every range bound (`SwarmDriver::run`, interval arm) -/
+
+/-- `range_is_distance_to_kth`: whenever the interval arm sets a range, it is the larger of the density estimate
+`(2^256 - 1) / estimated_network_size * CLOSE_GROUP_SIZE` and the XOR distance from the node to the stated neighbour —
+entry `CLOSE_GROUP_SIZE + 1` of the self-inclusive, nearest-first K list, i.e. the node's `CLOSE_GROUP_SIZE + 1`-th
+nearest routing-table peer — and that distance enters exactly (the decimal detour of `convert_distance_to_u256` never
+falls back to zero): the bound is never below the true distance to that neighbour, so every peer at most that far is in
+range. -/
+theorem range_is_distance_to_kth (self : Addr) (addrOf : Peer → Addr) (nonFull full : Nat) (table : List Peer) (b : Nat)
+    (h : deriveRange (fun p => convDist self (addrOf p)) nonFull full table = some b) :
+    ∃ p, (closestKSelfInclusive table)[rangeNeighbourIndex]? = some p ∧
+      b = Nat.max ((2 ^ 256 - 1) / estimateNetworkSize nonFull full * closeGroupSize) (xorDist self (addrOf p)) ∧
+      xorDist self (addrOf p) ≤ b ∧
+      closeGroupSize < estimateNetworkSize nonFull full ∧ closeGroupSize + 2 < (closestKSelfInclusive table).length := by
+  unfold deriveRange at h
+  simp only at h
+  split at h
+  · cases h
+  · rename_i hest
+    split at h
+    · cases h
+    · rename_i hlen
+      split at h
+      · cases h
+      · rename_i p hp
+        simp only [Option.some.injEq] at h
+        refine ⟨p, hp, ?_, ?_, ?_, ?_⟩
+        · rw [← h, convDist_eq_xor]; rfl
+        · rw [← h, convDist_eq_xor]; exact Nat.le_max_right _ _
+        · simp only [rangeMinEstimateExclusive, closeGroupSize] at hest ⊢; omega
+        · simp only [rangeMinListLenExclusive, closeGroupSize] at hlen ⊢; omega
+
+/-- the stated neighbour is a routing-table peer, and exactly `CLOSE_GROUP_SIZE + 1` entries of the K list — the node
+itself and its `CLOSE_GROUP_SIZE` nearest peers — precede it, each at most as far as it -/
+theorem range_neighbour_is_kth_nearest (table : List Peer) (p : Peer)
+    (h : (closestKSelfInclusive table)[rangeNeighbourIndex]? = some p) :
+    p ∈ table ∧ (sortByDist table)[closeGroupSize]? = some p ∧
+      ∀ q ∈ (sortByDist table).take closeGroupSize, q.2 ≤ p.2 := by
+  unfold closestKSelfInclusive at h
+  have hidx : rangeNeighbourIndex = closeGroupSize + 1 := rfl
+  rw [hidx, List.getElem?_take] at h
+  have h' : (sortByDist table)[closeGroupSize]? = some p := by
+    split at h
+    · simpa using h
+    · cases h
+  refine ⟨?_, h', ?_⟩
+  · have := List.mem_of_getElem? h'
+    exact (sort_perm table).mem_iff.1 this
+  · intro q hq
+    have hs := sort_sorted table
+    rw [← List.take_append_drop closeGroupSize (sortByDist table), List.pairwise_append] at hs
+    refine hs.2.2 q hq p ?_
+    have hd : ((sortByDist table).drop closeGroupSize)[0]? = some p := by
+      rw [List.getElem?_drop]; simpa using h'
+    exact List.mem_of_getElem? hd
+
+/-- without a large enough estimate or enough known peers nothing is set (the range stays as it was) -/
+theorem range_not_set_when_few (f : Peer → Nat) (nonFull full : Nat) (table : List Peer)
+    (h : estimateNetworkSize nonFull full ≤ closeGroupSize ∨ table.length ≤ closeGroupSize + 1) :
+    deriveRange f nonFull full table = none := by
+  unfold deriveRange
+  simp only
+  rcases h with h | h
+  · have : estimateNetworkSize nonFull full ≤ rangeMinEstimateExclusive := h
+    simp [this]
+  · split
+    · rfl
+    · have hl : (closestKSelfInclusive table).length ≤ rangeMinListLenExclusive := by
+        unfold closestKSelfInclusive
+        rw [List.length_take, List.length_cons, (sort_perm table).length_eq]
+        simp only [rangeMinListLenExclusive, closeGroupSize] at h ⊢
+        omega
+      simp [hl]
+
+/-! ## The storage challenge orders held records exactly as the XOR integer orders them -/
+
+/-- the responder answers for the `min(difficulty, CLOSE_GROUP_SIZE)` held chunks nearest the key, ascending, and every
+held chunk left out is at least as far from the key as every one answered for -/
+theorem challenge_response_is_nearest (held : List Peer) (difficulty : Nat) :
+    (respondClosest held difficulty).length = min (min difficulty closeGroupSize) held.length ∧
+    (respondClosest held difficulty).Pairwise (fun a b => a.2 ≤ b.2) ∧
+    (respondClosest held difficulty ++ (sortByDist held).drop (min difficulty closeGroupSize)).Perm held ∧
+    ∀ x ∈ respondClosest held difficulty, ∀ y ∈ (sortByDist held).drop (min difficulty closeGroupSize), x.2 ≤ y.2 := by
+  unfold respondClosest
+  have hcap : challengeWorkloadCap = closeGroupSize := rfl
+  rw [hcap]
+  have hs := sort_sorted held
+  have hp := sort_perm held
+  refine ⟨by rw [List.length_take, hp.length_eq], hs.sublist (List.take_sublist _ _), ?_, ?_⟩
+  · rw [List.take_append_drop]; exact hp
+  · intro x hx y hy
+    rw [← List.take_append_drop (min difficulty closeGroupSize) (sortByDist held), List.pairwise_append] at hs
+    exact hs.2.2 x hx y hy
+
+/-- the challenger's target is one of the nearer half of its own chunks (by XOR distance to itself), and what it expects
+to be answered are the `CLOSE_GROUP_SIZE` held chunks nearest that target, ascending -/
+theorem challenge_targets_spec (bySelf : List Peer) (index : Nat) (toTarget : Nat → Nat → Nat) (t : Nat) (exp : List Nat)
+    (h : challengeTargets bySelf index toTarget = some (t, exp)) :
+    50 ≤ bySelf.length ∧ index < bySelf.length / 2 ∧
+    (∃ c, (sortByDist bySelf)[index]? = some c ∧ c.1 = t ∧ c ∈ bySelf ∧
+      ∀ q ∈ (sortByDist bySelf).take index, q.2 ≤ c.2) ∧
+    exp = ((sortByDist (bySelf.map (fun c => (c.1, toTarget t c.1)))).take closeGroupSize).map (·.1) ∧
+    exp.length = closeGroupSize := by
+  unfold challengeTargets at h
+  split at h
+  · cases h
+  · rename_i hn
+    split at h
+    · cases h
+    · rename_i hi
+      split at h
+      · cases h
+      · rename_i c hc
+        simp only [Option.some.injEq, Prod.mk.injEq] at h
+        obtain ⟨h1, h2⟩ := h
+        have hn' : 50 ≤ bySelf.length := by simp only [challengeMinCandidates] at hn; omega
+        refine ⟨hn', by omega, ⟨c, hc, h1, ?_, ?_⟩, ?_, ?_⟩
+        · exact (sort_perm bySelf).mem_iff.1 (List.mem_of_getElem? hc)
+        · intro q hq
+          have hs := sort_sorted bySelf
+          rw [← List.take_append_drop index (sortByDist bySelf), List.pairwise_append] at hs
+          refine hs.2.2 q hq c ?_
+          have hd : ((sortByDist bySelf).drop index)[0]? = some c := by rw [List.getElem?_drop]; simpa using hc
+          exact List.mem_of_getElem? hd
+        · rw [← h2, ← h1]; rfl
+        · rw [← h2, List.length_map, List.length_take, (sort_perm _).length_eq, List.length_map]
+          simp only [challengeDifficulty, closeGroupSize]; omega
+
+/-- who is challenged: the node's `CLOSE_GROUP_SIZE - 1` nearest routing-table peers (the K list starts with the node
+itself, which takes one of the `CLOSE_GROUP_SIZE` places and is then skipped) — so only four peers are challenged -/
+theorem challenged_are_four_nearest (table : List Peer) (hid : ∀ p ∈ table, p.1 ≠ 0) (r : List Peer)
+    (h : challengedPeers table = some r) :
+    r = (sortByDist table).take (closeGroupSize - 1) ∧ r.length = closeGroupSize - 1 := by
+  unfold challengedPeers closestKSelfInclusive at h
+  simp only at h
+  split at h
+  · cases h
+  · rename_i hlen
+    simp only [Option.some.injEq] at h
+    have h5 : challengePeersTaken = 5 := rfl
+    have h20 : kValue = 20 := rfl
+    rw [h5, h20, List.take_take] at h hlen
+    simp only [Nat.reduceLeDiff, Nat.min_eq_left, List.take_succ_cons] at h hlen
+    have hf : ((sortByDist table).take 4).filter (fun p => p.1 != 0) = (sortByDist table).take 4 := by
+      apply List.filter_eq_self.2
+      intro p hp
+      have : p ∈ table := (sort_perm table).mem_iff.1 (List.mem_of_mem_take hp)
+      simpa using hid p this
+    simp only [List.filter_cons, bne_self_eq_false, Bool.false_eq_true, ↓reduceIte, hf] at h
+    have hcg : closeGroupSize - 1 = 4 := rfl
+    rw [hcg]
+    refine ⟨h.symm, ?_⟩
+    rw [← h]
+    simp only [List.length_cons, List.length_take] at hlen ⊢
+    omega
+
 /-! ## The record store's closeness decisions on records (distance index, farthest record) -/
 
 /-- "Selecting … records within a range": after every history and schedule of the record store (restarts included) the
@@ -521,6 +677,12 @@ end SafeNet.Props.C11
 #print axioms SafeNet.Props.C11.client_short_answer_witness
 #print axioms SafeNet.Props.C11.closest_num_short_witness
 #print axioms SafeNet.Props.C11.closest_num_returns_requested_partial
+#print axioms SafeNet.Props.C11.range_is_distance_to_kth
+#print axioms SafeNet.Props.C11.range_neighbour_is_kth_nearest
+#print axioms SafeNet.Props.C11.range_not_set_when_few
+#print axioms SafeNet.Props.C11.challenge_response_is_nearest
+#print axioms SafeNet.Props.C11.challenge_targets_spec
+#print axioms SafeNet.Props.C11.challenged_are_four_nearest
 #print axioms SafeNet.Props.C11.record_selection_is_by_xor_distance
 #print axioms SafeNet.Props.C11.fetch_order_is_by_distance
 #print axioms SafeNet.Props.C11.sort_sorted
